@@ -3,6 +3,7 @@ package main
 import (
 	"bytes"
 	"fmt"
+	"net/url"
 	"strings"
 
 	"verifharness/internal/drv"
@@ -83,7 +84,7 @@ func runC11(c *Ctx) {
 	if c.Thorough() {
 		maxSize = 24
 	}
-	c.R.Rule = fmt.Sprintf("exhaustive: object sizes 0..%d × Range headers 'bytes=a-b','bytes=a-','bytes=-n' with a,b,n in -1..size+2, plus %d boundary/whitespace/multi-range/unit headers per size class, on every backend instance; fs backends additionally: object files placed into the bucket's directory directly (no stored metadata), each read for the first time by a ranged GET; a case is non-trivial when the model's answer is a 206 or a 416 and distinct by (size, header)", maxSize, len(c11Boundary))
+	c.R.Rule = fmt.Sprintf("exhaustive: object sizes 0..%d × Range headers 'bytes=a-b','bytes=a-','bytes=-n' with a,b,n in -1..size+2, plus %d boundary/whitespace/multi-range/unit headers per size class, on every backend instance; memory backend additionally: the current and an archived version of a key in a versioned bucket read with ?versionId and every such header; fs backends additionally: object files placed into the bucket's directory directly (no stored metadata), each read for the first time by a ranged GET; a case is non-trivial when the model's answer is a 206 or a 416 and distinct by (size, header)", maxSize, len(c11Boundary))
 	c.R.Exhaustive = true
 	for _, kind := range c.kinds(impl.AllKinds) {
 		inst, err := impl.New(kind, c.Tmp)
@@ -124,6 +125,36 @@ func runC11(c *Ctx) {
 				}
 				if size == 5 && kind == "mem" {
 					c.sample(fmt.Sprintf("size=5 Range=%q -> %s", h, obs))
+				}
+			}
+		}
+		// memory backend: a specific version (current and archived) read with ?versionId and a Range
+		if kind == "mem" {
+			vb := "vrange"
+			inst.Do(impl.Req{Method: "PUT", Path: "/" + vb})
+			inst.Do(impl.Req{Method: "PUT", Path: "/" + vb, Query: "versioning", Body: strings.NewReader(`<VersioningConfiguration xmlns="http://s3.amazonaws.com/doc/2006-03-01/"><Status>Enabled</Status></VersioningConfiguration>`)})
+			var vids []string
+			var datas [][]byte
+			for _, size := range []int{6, 9} {
+				d := patternBytes(size)
+				pr := inst.Do(impl.Req{Method: "PUT", Path: "/" + vb + "/vk", Body: bytes.NewReader(d)})
+				vids = append(vids, pr.Header.Get("X-Amz-Version-Id"))
+				datas = append(datas, d)
+			}
+			for i, vid := range vids {
+				if vid == "" {
+					c.mismatch(Mismatch{Kind: "model", Backend: kind, Finger: "setup-version", Impl: "no version id on a versioned upload"})
+					break
+				}
+				for _, h := range append(c11Headers(len(datas[i]), false), "", "bytes=0-", "bytes=-0", "bytes=9-", "bytes=-10", "bytes=0-9223372036854775807") {
+					rq := impl.Req{Method: "GET", Path: "/" + vb + "/vk", Query: "versionId=" + url.QueryEscape(vid)}
+					if h != "" {
+						rq.Header = map[string]string{"Range": h}
+					}
+					obs := rangeObs(inst.Do(rq))
+					line := fmt.Sprintf("getrange %s %s %s", fs, drv.HexS(h), drv.Hex(datas[i]))
+					c.check(kind, nil, line, obs, "range-of-version:"+classifyRange(h))
+					c.hist("version-read:" + classifyRange(h))
 				}
 			}
 		}
